@@ -46,7 +46,7 @@ FLOORS = {
     'bin:mixed-sign': (0.15, 'bin:pair'), 'bin:mixed-type': (0.30, 'bin:pair'), 'bin:exact-quotient': (0.08, 'bin:pair'),
     'bin:zero-divisor': (0.02, 'bin:pair'), 'bin:nonfinite': (0.03, 'bin:pair'),
     'un:tie': (0.05, 'un:arg'), 'un:negative': (0.25, 'un:arg'), 'bin:fp-underflow-negative': (0.004, 'bin:pair'),
-    'bin:subint-operand': (0.08, 'bin:pair'), 'un:subint-operand': (0.05, 'un:arg'),
+    'bin:subint-operand': (0.08, 'bin:pair'), 'un:subint-operand': (0.05, 'un:arg'), 'un:huge-with-fraction': (0.03, 'un:arg'),
 }
 
 BIN_OPS = ('+', '-', '*', 'div', 'idiv', 'mod')
@@ -397,7 +397,9 @@ def judge_unary(case, rec: Recorder | None = None) -> list[Disc]:
         tie = fin and any((Fraction(ra[1]) * Fraction(10) ** q).denominator == 2 for q in (0, p))
         classes = ['un:arg', f'un:mode-{mode}', f'un:form-{form}', f'un:type-{a[0]}']
         for flag, name in ((neg, 'negative'), (tie, 'tie'), (not fin, 'nonfinite'), (p < 0, 'negative-precision'),
-                           (a[0] in A.INT_SUBTYPES, 'subint-operand')):
+                           (a[0] in A.INT_SUBTYPES, 'subint-operand'),
+                           (fin and a[0] in ('double', 'float') and Fraction(ra[1]).denominator > 1 and
+                            abs(ra[1]) >= (1e15 if a[0] == 'double' else 2 ** 21), 'huge-with-fraction')):
             if flag:
                 classes.append('un:' + name)
         rec.case([mode, form, a, p, case.get('fns')], nontrivial=neg or tie or not fin, classes=classes, n=len(done),
@@ -453,7 +455,8 @@ def grid2_cases(mode, form, lo, hi, sub=False):
 
 
 def grid1_cases(mode, form):
-    for a in _grid_atoms(mode) + ([] if mode == '1.0' else A.subint_boundary_atoms()):
+    extra = A.unary_boundary_atoms(('double',)) if mode == '1.0' else A.subint_boundary_atoms() + A.unary_boundary_atoms()
+    for a in _grid_atoms(mode) + extra:
         for p in PRECISIONS:
             c = {'mode': mode, 'form': form, 'a': a, 'p': p}
             if p != 0:
@@ -479,6 +482,10 @@ def selftest():
             if t == 'float':
                 # float lexicals must denote binary32 values exactly
                 assert math.isnan(v) or math.isinf(v) or Fraction(v) == N.rational_of_lexical(lex), lex
+    for t, lexs in A.UNARY_BOUNDARY.items():
+        for lex in lexs:     # exactly representable, fractional, below 2**52 / 2**23
+            v = N.parse(t, lex)
+            assert Fraction(v) == N.rational_of_lexical(lex) and v != int(v) and abs(v) < (2 ** 52 if t == 'double' else 2 ** 23), lex
     assert A.literal(['double', '-2.5']) == '(-2.5e0)' and A.literal(['decimal', '5']) == '5.0'
     assert A.literal(['double', '1.0E21'], xpath1=True) == '1000000000000000000000' and A.literal(['float', '1']) is None
     assert A.lexical_for('float', Fraction(1, 3)) is None and A.lexical_for('integer', Fraction(6, 2)) == '3'
